@@ -150,6 +150,8 @@ def check(repo, col, tier):
     cable.check_axial(repo, col, {"roles": "R-C01-conductances", "oracle": "R-C01-conductances",
                                   "kirchhoff": "R-C01-conductances", "cap": "R-C01-conductances"})
     _merge(repo, col)
+    col.rule("R-C01-levels", "level bookkeeping, branch-point grouping and within-branch edge tables", 8)
+    _levels(repo, col)
     cap = _assembly_jaxley(repo, col)
     _assembly_sparse(repo, col)
     _explicit(repo, col)
@@ -1016,3 +1018,139 @@ def _refuse(repo, col):
             break
         col.check(raises, R, f2, f"{fname}: unknown tridiagonal solver name raises", "raise NameError",
                   f"{fname} does not refuse an unknown solver name", node=chain or f2.node)
+
+
+# --------------------------------------------------------------------------------------
+# level bookkeeping and edge tables (three-valued shape rules on small helper functions)
+
+
+def _levels(repo, col):
+    R = "R-C01-levels"
+    CUF = "jaxley/utils/cell_utils.py"
+    # compute_levels: level(root) = 0, level(child) = level(parent) + 1
+    fi = repo.func(CUF, "compute_levels")
+    asg = {}
+    for n in ast.walk(fi.node):
+        if isinstance(n, ast.Assign) and isinstance(n.targets[0], ast.Subscript) and unparse(n.targets[0].value) == "levels":
+            asg[unparse(n.value).replace(" ", "")] = n
+    ok = set(asg) == {"0", "levels[p]+1"}
+    wrong = bool(asg) and not ok and all(k in ("0", "1") or k.startswith("levels[p]") for k in asg)
+    col.add(R, fi, "compute_levels: root 0, child = level(parent) + 1", "DISCHARGED" if ok else ("VIOLATED" if wrong else "UNDECIDED"),
+            str(sorted(asg)) if ok else f"levels are assigned as {sorted(asg)}: a branch must be exactly one level below its parent", node=fi.node)
+    g = next((n for n in ast.walk(fi.node) if isinstance(n, ast.If)), None)
+    col.check(g is not None and unparse(g.test).replace(" ", "") == "p==-1", R, fi, "compute_levels: roots are the branches without parent",
+              "p == -1", f"root test is {unparse(g.test) if g else None}", node=g or fi.node)
+    # compute_children_in_level
+    fi = repo.func(CUF, "compute_children_in_level")
+    src = unparse(fi.node).replace(" ", "")
+    lo = next((n for n in walk_no_nested(fi.node) if isinstance(n, ast.For) and unparse(n.target) == "l"), None)
+    rng = unparse(lo.iter).replace(" ", "") if lo is not None else ""
+    col.add(R, fi, "children levels run from 1 to max(levels)", "DISCHARGED" if rng == "range(1,np.max(levels)+1)" else
+            ("VIOLATED" if rng.startswith("range(") else "UNDECIDED"), rng or "?", node=lo or fi.node,
+            ) if rng == "range(1,np.max(levels)+1)" else col.add(
+        R, fi, "children levels run from 1 to max(levels)", "VIOLATED" if rng.startswith("range(") else "UNDECIDED",
+        f"levels are iterated with `{rng}`; every level 1..max(levels) has children that must be eliminated", node=lo or fi.node)
+    ok = "iflevels[b]==l:" in src and "children_row_and_col[b-1]" in src
+    wrong = "children_row_and_col[b]" in src or "levels[b]==l+1" in src or "levels[b]==l-1" in src
+    col.add(R, fi, "branch b of level l contributes row b-1 of the (child branch, branch point) table",
+            "DISCHARGED" if ok else ("VIOLATED" if wrong else "UNDECIDED"),
+            "children_row_and_col[b - 1] for levels[b] == l" if ok else
+            "row b-1 belongs to child branch b (branch 0 is the root and has no row); another row attaches the wrong branch", node=fi.node)
+    # compute_parents_in_level
+    fi = repo.func(CUF, "compute_parents_in_level")
+    src = unparse(fi.node).replace(" ", "")
+    ok = "level_of_parent=levels[par_inds]" in src and "forlinrange(np.max(levels)):" in src and \
+        "np.where(level_of_parent==l)[0]" in src and "parents_row_and_col[parents_inds_in_current_level]" in src
+    wrong = "range(1,np.max(levels)+1)" in src or "range(np.max(levels)+1)" in src or "level_of_parent==l+1" in src or "levels[child_inds]" in src
+    col.add(R, fi, "parents of level l are the parent branches whose own level is l, l = 0..max-1",
+            "DISCHARGED" if ok else ("VIOLATED" if wrong else "UNDECIDED"),
+            "levels[par_inds] == l for l in range(max(levels))" if ok else
+            "the parents eliminated together with the children of level l+1 must be the branches of level l", node=fi.node)
+    # group_and_sum: additive scatter from zeros
+    fi = repo.func(CUF, "group_and_sum")
+    ex = idxm.expander(repo, fi)
+    r = ex.returns[-1] if ex.returns else None
+    adds = T.find_all(r, lambda x: x.op == "mcall" and x.name in ("add", "set")) if r is not None else []
+    ok = bool(adds) and all(a.name == "add" for a in adds) and T.find(r, lambda x: x.op == "mcall" and x.name == "zeros") is not None
+    col.add(R, fi, "group_and_sum accumulates (adds) the weights of a branch point", "DISCHARGED" if ok else ("VIOLATED" if adds else "UNDECIDED"),
+            ".at[inds].add from zeros" if ok else "weights meeting at one branch point must be summed; `.set` keeps only one of them", node=fi.node)
+    # order of the branch-point group indices == order of the concatenated weights (parents first, then children)
+    fi = repo.func(CUF, "build_branchpoint_group_inds")
+    ex = idxm.expander(repo, fi)
+    cat = T.find(ex.returns[-1], lambda x: x.op == "mcall" and x.name == "concatenate") if ex.returns else None
+    order = None
+    if cat is not None and cat.args[1].op == "list" and len(cat.args[1].args) == 2:
+        a, b = cat.args[1].args
+        order = ("parents" if T.find(a, lambda x: x.op == "mcall" and x.name == "arange") is not None else "children",
+                 "children" if T.find(b, lambda x: x.op == "param" and x.name == "child_belongs_to_branchpoint") is not None else "parents")
+    sv = repo.func(SV, "step_voltage_implicit_with_jaxley_spsolve")
+    exs = idxm.expander(repo, sv)
+    allv = None
+    for n in walk_no_nested(sv.node):
+        if isinstance(n, ast.Assign) and unparse(n.targets[0]) == "all_branchpoint_vals":
+            allv = [unparse(x) for x in n.value.args[0].elts] if isinstance(n.value, ast.Call) and n.value.args and isinstance(n.value.args[0], (ast.List, ast.Tuple)) else None
+    order2 = None
+    if allv and len(allv) == 2:
+        order2 = tuple("parents" if "parents" in x else "children" for x in allv)
+    col.add(R, fi, "group indices and concatenated weights list parents first, then children",
+            "DISCHARGED" if order == order2 == ("parents", "children") else ("VIOLATED" if order and order2 and order != order2 else "UNDECIDED"),
+            f"{order} / {order2}" if order == order2 else
+            f"group indices are ordered {order} but the weights are concatenated as {order2}: weights are summed into the wrong branch points", node=fi.node)
+    # compute_children_and_parents: the branch-point of a child is the rank of its parent among the unique parents
+    fi = repo.func(CUF, "compute_children_and_parents")
+    src = unparse(fi.node)
+    i1 = src.find("child_belongs_to_branchpoint = remap_to_consecutive(par_inds)")
+    i2 = src.find("par_inds = np.unique(par_inds)")
+    col.add(R, fi, "child -> branch point: rank of the child's parent, computed before the parents are made unique",
+            "DISCHARGED" if 0 <= i1 < i2 else ("VIOLATED" if i1 >= 0 and i2 >= 0 else "UNDECIDED"),
+            "remap_to_consecutive(parent of each child), then np.unique" if 0 <= i1 < i2 else
+            "the mapping child -> branch point is computed from the already de-duplicated parents: children lose their branch point", node=fi.node)
+    # within-branch edges: (i, i+1) and (i+1, i) for consecutive compartments
+    for cls in ("Branch", "Cell"):
+        fi = repo.method(cls, "_init_morph_jax_spsolve")
+        d = None
+        for n in ast.walk(fi.node):
+            if isinstance(n, ast.Dict) and [k.value for k in n.keys if isinstance(k, ast.Constant)][:2] == ["source", "sink"] and \
+                    all(isinstance(v, ast.BinOp) for v in n.values[:2]):
+                d = n
+        if d is None:
+            col.unk(R, fi, f"{cls}: within-branch edges", "edge dictionary not found", node=fi.node)
+            continue
+        ev = kin.new_eval(repo)
+
+        class Rg:
+            def __init__(self, a, b):
+                self.a, self.b = a, b
+
+        def p_range(self_, args, kw, node):
+            a = [rat_of(x) for x in args]
+            return Rg(ZERO, a[0]) if len(a) == 1 else Rg(a[0], a[1])
+
+        def p_list(self_, args, kw, node):
+            return args[0]
+
+        ev.PRIMS = dict(ev.PRIMS)
+        ev.PRIMS.update({"range": p_range, "list": p_list})
+        env = {"self": ObjV(cls, {"ncomp": PW.of(Rat.atom("n"))}), "ncomp": PW.of(Rat.atom("n")), "cumsum_ncomp": PW.of(Rat.atom("c"))}
+        ctx = {"mod": repo.mods[fi.file], "cls": cls, "defining_cls": cls}
+
+        def halves(e):
+            if isinstance(e, ast.BinOp) and isinstance(e.op, ast.Add):
+                return [ev.ev(e.left, env, ctx), ev.ev(e.right, env, ctx)]
+            return None
+
+        try:
+            so, si = halves(d.values[0]), halves(d.values[1])
+            ok = so and si and all(isinstance(x, Rg) for x in so + si)
+            if ok:
+                n_ = Rat.atom("n")
+                # first half: source [c, c+n-1), sink [c+1, c+n); second half swapped
+                c0 = so[0].a
+                ok = so[0].b.eq(c0 + n_ - ONE) and si[0].a.eq(c0 + ONE) and si[0].b.eq(c0 + n_) and \
+                    so[1].a.eq(si[0].a) and so[1].b.eq(si[0].b) and si[1].a.eq(so[0].a) and si[1].b.eq(so[0].b)
+            col.check(bool(ok), R, fi, f"{cls}: within-branch edges are (i, i+1) and (i+1, i) for i = first..last-1",
+                      "source [c, c+n-1) + [c+1, c+n), sink [c+1, c+n) + [c, c+n-1)",
+                      f"edge ranges: source {[(repr(x.a), repr(x.b)) for x in so] if so else None}, sink {[(repr(x.a), repr(x.b)) for x in si] if si else None}",
+                      node=d)
+        except Und as e:
+            col.unk(R, fi, f"{cls}: within-branch edges", str(e), node=d)
